@@ -839,6 +839,11 @@ O(id='OCTET_STRING_encode_xer.canonical', props=['C04', 'C07', 'C19'], entry='h_
   include=['contracts/OCTET_STRING_xer.h'], enforce=['OCTET_STRING_encode_xer'], loops=True, functions=['OCTET_STRING_encode_xer'], fp_restrict=[(r'::cb$', ['out_cb'])], backends=['sat', 'cvc5'], min_props=15, timeout=900,
   trusted=['output callback: harness stub without side effects, arbitrary return value'])
 
+for _c in (0, 1, 2, 3):
+    O(id='SET_OF_encode_uper.grid.size2.n%d' % _c, props=['C02', 'C06', 'C07', 'C08'], kind='native', harness='harness/grid_setof_uper.c', entry='main',
+      functions=['SET_OF_encode_uper', 'SET_OF__encode_sorted', '_el_buf_cmp', 'uper_encode', 'asn_put_many_bits'], no_canary=True,
+      defines=['VF_COUNT=%d' % _c, 'VF_CB_CAP=40', 'VF_PREFILL=1', 'VF_SIZECT=2'], bound='as SET_OF_encode_uper.grid.n%d, with the constraint SIZE(2): lists of %d elements' % (_c, _c), timeout=900)
+
 for _o in OBLIGATIONS:
     if _o.get('enforce') and _o.get('kind') in ('enforce', 'width') and _o.get('tier') == 'quick' and 'C19' not in _o['props']:
         _o['props'] = _o['props'] + ['C19']
